@@ -23,6 +23,17 @@ package trie
 //@   iface
 //@   trusted
 //@   pure
+//@ func (t MutableForObject) Delete(k) (old, err)
+//@   iface
+//@   trusted
+//@   pure
+// mfo_reset_to: the immutable trie a mutable object trie was last reset to
+//@ smt all (declare-ghost mfo_reset_to Iface)
+//@ func (t MutableForObject) Reset(s)
+//@   iface
+//@   trusted
+//@   pure
+//@   opt ghost:mfo_reset_to s
 // iter_key: the key most recently handed out by an object iterator
 //@ smt all (declare-ghost iter_key Slice)
 //@ func (i IteratorForObject) Get() (o, k, err)
